@@ -10,6 +10,7 @@ import (
 	"net/netip"
 	"slices"
 	"strings"
+	"sync"
 	"testing"
 
 	"github.com/AdguardTeam/golibs/hostsfile"
@@ -690,6 +691,87 @@ var storageProp = vp.Register(vp.Prop[StorageCase]{
 	},
 	Check: checkStorage,
 })
+
+// ReadersCase is a storage built from a history and then only read, from
+// several goroutines at once.
+type ReadersCase struct {
+	Ops     []StorageOp `json:"ops"`
+	Readers int         `json:"readers"`
+	Rounds  int         `json:"rounds"`
+}
+
+// checkReaders: once built, a storage answers every query with exactly the
+// associated addresses / names however many goroutines read it at the same
+// time (the repository's own tests query one storage from parallel subtests;
+// reads are expected to be pure).
+func checkReaders(c ReadersCase) error {
+	st, err := hostsfile.NewDefaultStorage()
+	if err != nil {
+		return err
+	}
+	m := newStorageModel()
+	for _, op := range c.Ops {
+		st.Add(&hostsfile.Record{Addr: op.Addr, Names: slices.Clone(op.Names)})
+		m.add(op.Addr, op.Names)
+	}
+	errs := make([]error, c.Readers)
+	var start, done sync.WaitGroup
+	start.Add(1)
+	for g := 0; g < c.Readers; g++ {
+		done.Add(1)
+		go func() {
+			defer done.Done()
+			start.Wait()
+			for r := 0; r < c.Rounds && errs[g] == nil; r++ {
+				errs[g] = vp.Guard(func() error { return m.compare(st) })
+			}
+		}()
+	}
+	start.Done()
+	done.Wait()
+	for g, e := range errs {
+		if e != nil {
+			return fmt.Errorf("storage built by %d Add calls and then read by %d goroutines at once, reader %d: %w", len(c.Ops), c.Readers, g, e)
+		}
+	}
+	vp.Class("readers")
+	if len(m.addrs) >= 3 {
+		vp.Class("readers:>=3-distinct-names")
+		vp.NonTrivialStr("c08.readers", fmt.Sprint(c))
+		vp.Sample("readers", c)
+	}
+	return nil
+}
+
+var readersProp = vp.Register(vp.Prop[ReadersCase]{
+	Kind: "c08.readers", Base: 1500,
+	Gen: func(t *rapid.T) ReadersCase {
+		c := ReadersCase{Readers: rapid.IntRange(2, 8).Draw(t, "readers"), Rounds: rapid.IntRange(1, 20).Draw(t, "rounds")}
+		n := rapid.IntRange(1, 10).Draw(t, "ops")
+		for i := 0; i < n; i++ {
+			c.Ops = append(c.Ops, StorageOp{
+				Addr:  rapid.SampledFrom(addrPool).Draw(t, "addr"),
+				Names: rapid.SliceOfN(rapid.SampledFrom(namePool), 1, 4).Draw(t, "names"),
+			})
+		}
+		return c
+	},
+	Check: checkReaders,
+})
+
+func TestReaders(t *testing.T) { vp.Run(t, readersProp) }
+
+// TestConcurrent (variant "conc", -race): the sequential oracles from 8
+// goroutines on separate objects, and the shared-storage readers, under the
+// race detector.
+func TestConcurrent(t *testing.T) {
+	if vp.Variant() != "conc" {
+		t.Skip("runs in the conc variant (-race)")
+	}
+	vp.RunConcurrent(t, readersProp, 150, 8, 2)
+	vp.RunConcurrent(t, storageProp, 100, 16, 8)
+	vp.RunConcurrent(t, parseProp, 100, 16, 8)
+}
 
 func TestParse(t *testing.T)   { vp.Run(t, parseProp) }
 func TestStorage(t *testing.T) { vp.Run(t, storageProp) }
